@@ -58,6 +58,14 @@ def comps(nodes, msets):
 
 def run_case(case, ctx):
     H = nets.build(case["spec"])
+    _evaluate(H, case, ctx)
+    # the same object after a small in-place edit: every derived network is formed and judged again
+    if nets.small_edit(H) is not None:
+        ctx.event("re-evaluated-after-edit")
+        _evaluate(H, case, ctx)
+
+
+def _evaluate(H, case, ctx):
     C = ctx.check
     nodes = list(H.nodes)
     mem = {e: frozenset(m) for e, m in H.edges.members(dtype=dict).items()}
